@@ -36,7 +36,8 @@ theorem name_ne_of_ne {al : List Intf} (hnd : (al.map (·.name)).Nodup) {k k' : 
 
 /-- Processing the interface pairs `ps` (index of the device interface, target interface). -/
 theorem sem_pairs {e : Env} (hwf : WFE e) {P : List Name} {d0 : Dev} (hwi : WFI e d0)
-    (ps : List (Nat × Intf)) (hps : ∀ p ∈ ps, p.1 < e.a.intfs.length ∧ p.2 ∈ e.b.intfs) (hnd : (ps.map (·.1)).Nodup)
+    (ps : List (Nat × Intf)) (hps : ∀ p ∈ ps, p.1 < e.a.intfs.length ∧ p.2 ∈ e.b.intfs ∧
+      (e.a.intfs.getD p.1 default).name = p.2.name) (hnd : (ps.map (·.1)).Nodup)
     {st : St} {d : Dev} {σ : String → String → Status} {π : List (Nat × Nat)} (h : Sem e P d0 st d σ π)
     (hπ : ∀ q ∈ π, q.1 ∉ ps.map (·.1))
     (hσ : ∀ p ∈ ps, ∀ dir, σ (e.a.intfs.getD p.1 default).name dir = .orig) :
@@ -47,12 +48,13 @@ theorem sem_pairs {e : Env} (hwf : WFE e) {P : List Name} {d0 : Dev} (hwi : WFI 
   induction ps generalizing st d σ π with
   | nil => exact ⟨d, σ, π, h, by simp, fun _ _ _ => rfl, fun q hq => Or.inl hq⟩
   | cons p ps ih =>
-    obtain ⟨hk, hb⟩ := hps p (List.mem_cons_self ..)
+    obtain ⟨hk, hb, hnm⟩ := hps p (List.mem_cons_self ..)
     have hmem := getD_mem e.a.intfs p.1 hk
     simp only [List.map_cons, List.nodup_cons] at hnd
     have h0 : Sem e P d0 ({ st with iNeeded := p.1 :: st.iNeeded }.hit "intf:pair") d σ π := sem_hit (sem_iNeeded h _) _
     obtain ⟨d1, σ1, π1, h1, hoth, hset, hclr, horig, hπ1⟩ := sem_diffBinds hwf p.1 (e.a.intfs.getD p.1 default).name
-      (e.a.intfs.getD p.1 default).binds p.2.binds (hwi.aIntf _ hmem) (hwi.bIntf _ hb) h0
+      (e.a.intfs.getD p.1 default).binds p.2.binds (hwi.aIntf _ hmem) (hwi.bIntf _ hb)
+      (fun a ha b' hb' hd => ⟨_, hmem, _, hb, hnm, a, ha, b', hb', hd, rfl, rfl⟩) h0
       (fun k hc => hπ _ hc (by simp)) (hσ p (List.mem_cons_self ..))
     have hne : ∀ p' ∈ ps, (e.a.intfs.getD p'.1 default).name ≠ (e.a.intfs.getD p.1 default).name := by
       intro p' hp'
@@ -186,8 +188,8 @@ theorem sem_diffIntfs {e : Env} (hwf : WFE e) {P : List Name} {d0 : Dev} (hwi : 
       intro p hp
       rw [hps] at hp
       obtain ⟨q, hq, rfl⟩ := List.mem_map.mp hp
-      obtain ⟨h1, h2, _⟩ := hEmem q hq
-      exact ⟨by rw [← hal]; exact h1, by rw [← hbl]; exact getD_mem bl _ h2⟩)
+      obtain ⟨h1, h2, h3⟩ := hEmem q hq
+      exact ⟨by rw [← hal]; exact h1, by rw [← hbl]; exact getD_mem bl _ h2, by rw [← hal]; exact h3⟩)
     (by rw [hpsfst, hE]; exact nodup_sEq_fst ..) h (by intro q hq; cases hq) (fun p _ dir => hσ _ dir)
   have hname : ∀ p ∈ ps, (e.a.intfs.getD p.1 default).name = p.2.name := by
     intro p hp
